@@ -32,7 +32,7 @@ BUILT: dict[str, dict[str, str]] = {
     "C16": dict(
         technique="property-based testing (Hypothesis): generated pruner configurations and interleaved training-curve programs run through ask/report/should_prune/tell; safety oracle derived from the docstrings, exact oracle for Threshold/Nop, metamorphic replay under a trial-id offset; exhaustive enumeration of the two integer helpers",
         category="exploration",
-        text="Generated-history search: every should_prune decision of thousands of interleaved studies is checked against the protections the pruner documents (warm-up, start-up, interval, n_min_trials, first rung, patience window, champion), the Threshold pruner against an exact model, and Hyperband brackets/decisions against a replay with different trial ids and trial contents. Absence of counterexamples in the explored region only.",
+        text="Generated-history search: every should_prune decision of thousands of interleaved studies is checked against the protections the pruner documents (warm-up, start-up, interval, n_min_trials, first rung, patience window, champion), the Threshold pruner against an exact model, and Hyperband brackets/decisions against a replay with different trial ids, different trial contents and a pruner object that served another study before. Absence of counterexamples in the explored region only.",
         note="In-memory storage; weakest reading of ambiguous docstrings (see evidence assumptions).",
         ref="DESIGN.md 3/C16",
     ),
@@ -144,7 +144,7 @@ BUILT: dict[str, dict[str, str]] = {
     "C03": dict(
         technique="schedule enumeration + property-based testing (Hypothesis) with a Wing-Gong linearizability oracle: generated and systematic multi-worker storage scenarios on eleven thread / 'process' / mixed layouts under a deterministic line-level scheduler; every schedule's call history is searched for a sequential order that ModelStorage reproduces (results, exception classes, final state)",
         category="exploration",
-        text="Ten classic same-object races are run on every layout with all single-preemption schedules (quick tier: sampled on the journal-file and SQLite layouts), plus generated scenarios with single- and multi-preemption schedules; each history must be linearizable against the reference model and end in the backend's real final state. One recorded finding (SQLite check-then-write of the non-state setters) is carved out for exactly that overlap.",
+        text="Fifteen classic same-object races are run on every layout with all single-preemption schedules (quick tier: sampled on the journal-file and SQLite layouts) and release-x-anywhere two-preemption pairs on the cheap thread layouts, plus generated scenarios with single- and multi-preemption schedules; preemption points include the gaps between the elements of a container being copied; each history must be linearizable against the reference model and end in the backend's real final state. One recorded finding (SQLite check-then-write of the non-state setters) is carved out for exactly that overlap.",
         note="Line-granular preemption; simulated processes; gRPC server threads not scheduled; busy timeout 0 ('database is locked' allowed as a no-effect outcome).",
         ref="DESIGN.md 2.3, 3/C03",
     ),
